@@ -27,6 +27,7 @@ func init() {
 			Trusted:     commonTrusted,
 		},
 		Mutants: []Mutant{
+			{Name: "LetGlobal rebinds a shadowing local instead (agent seed C18/2)", File: "eval.go", Old: "func (state *Runtime) LetGlobal(name string, val interface{}) {\n", New: "func (state *Runtime) LetGlobal(name string, val interface{}) {\n\tif state.setValue(name, reflect.ValueOf(val)) == nil {\n\t\treturn\n\t}\n", Rule: "C18.top"},
 			{Name: "SetOrLet drops Set's error again (original defect)", File: "eval.go", Old: "\tif err := state.Set(name, val); err != nil {\n\t\tstate.Let(name, val)\n\t}", New: "\t_, err := state.resolve(name)\n\tif err != nil {\n\t\tstate.Let(name, val)\n\t} else {\n\t\tstate.Set(name, val)\n\t}", Rule: "C18.shared"},
 			{Name: "Let stores into a nil map (original defect)", File: "eval.go", Old: "\tif state.scope.variables == nil {\n\t\t// the bottom scope holds the VarMap passed to Execute, which may be nil\n\t\tstate.scope.variables = make(VarMap)\n\t}\n\tstate.scope.variables[name] = reflect.ValueOf(val)", New: "\tstate.scope.variables[name] = reflect.ValueOf(val)", Rule: "C18.top"},
 			{Name: "Set writes the innermost scope instead of rebinding", File: "eval.go", Old: "func (state *Runtime) Set(name string, val interface{}) error {\n\treturn state.setValue(name, reflect.ValueOf(val))\n}", New: "func (state *Runtime) Set(name string, val interface{}) error {\n\tstate.scope.variables[name] = reflect.ValueOf(val)\n\treturn nil\n}", Rule: "C18.shared"},
@@ -280,6 +281,27 @@ func runC18(c *an.Ctx) {
 			return true
 		})
 		c.Check(ok, "C18.top", "(*Runtime).LetGlobal/walk", f.Pos(), "LetGlobal walks to the outermost scope that has a variables map", "LetGlobal does not walk (in a loop) to the outermost scope that has a variables map")
+		// every normal exit has stored into the scope the walk ended at, and LetGlobal binds nowhere else
+		finfo := f.Info()
+		delegates := p.CallsIn(f, "(*jet.Runtime).setValue", "(*jet.Runtime).Set", "(*jet.Runtime).Let", "(*jet.Runtime).SetOrLet")
+		x := p.NewExplorer(f, an.Hooks{PreAssign: func(x *an.Explorer, lhs, rhs ast.Expr, stmt ast.Node, st *an.State) {
+			if ix, isIx := an.Unparen(lhs).(*ast.IndexExpr); isIx && p.FieldKey(finfo, ix.X) == "scope.variables" {
+				st.Set("stored", "1")
+			}
+			if rhs != nil && p.FieldKey(finfo, rhs) == "scope.parent" {
+				st.Set("stored", "") // a store before the walk finished does not count
+			}
+		}})
+		x.Run(nil)
+		c.States += x.Visited
+		allStore := true
+		for _, ex := range x.Exits {
+			if ex.Kind == an.ExitReturn && ex.State.Get("stored") == "" {
+				allStore = false
+			}
+		}
+		c.Check(allStore && len(delegates) == 0, "C18.top", "(*Runtime).LetGlobal/binds-outermost", f.Pos(), "every path through LetGlobal binds the name in the scope the walk ended at, and nowhere else",
+			"LetGlobal can return without binding the name in the outermost scope (or rebinds an inner variable through setValue/Set/Let instead): a shadowing local is overwritten and nothing is bound at the top")
 	}
 
 	// ---------------------------------------------------------------- C18.args
